@@ -126,21 +126,251 @@ theorem isAscii_repeat (f : OdsFeatures) (t : Str) (n : Nat) :
   · simp only [h1, if_true, Option.getD_some]; exact natRepr_isAscii n
   · simp only [h1, if_false]; rfl
 
-theorem encodeCell_value (f : OdsFeatures) (hf : f.plain) (t : Str) (n : Nat) :
-    cellValue (encodeCell f t n) = some t := by
-  obtain ⟨_, h2, h3, h4⟩ := hf
+theorem filter_tag_map' {α} (g : α → Xml) (tag : String) (l : List α) (h : ∀ a, (g a).tag = tag) :
+    (l.map g).filter (fun c => c.tag == tag) = l.map g := by
+  induction l with
+  | nil => rfl
+  | cons a as ih => simp [h a, ih]
+
+/-! ### the text of a cell (after the repair of the cell text extraction) -/
+
+theorem optText_getD (s : Str) : (optText s).getD [] = s := by
+  unfold optText; cases s <;> simp
+
+theorem textParts_node (tag : String) (attrs : List (String × Str)) (text : Option Str) (children : List Xml) (tail : Option Str) :
+    textParts (.node tag attrs text children tail) = TextOut.append (some (some (text.getD []))) (childrenParts children) := by
+  rw [textParts]
+
+theorem childrenParts_nil : childrenParts [] = some (some []) := by rw [childrenParts]
+
+theorem childrenParts_tab (tail : Option Str) (rest : List Xml) (r : Str) (h : childrenParts rest = some (some r)) :
+    childrenParts (.node "text:tab" [] none [] tail :: rest) = some (some ('\t' :: (tail.getD [] ++ r))) := by
+  rw [childrenParts, h]
+  simp [TextOut.append]
+
+theorem childrenParts_break (tail : Option Str) (rest : List Xml) (r : Str) (h : childrenParts rest = some (some r)) :
+    childrenParts (.node "text:line-break" [] none [] tail :: rest) = some (some ('\n' :: (tail.getD [] ++ r))) := by
+  rw [childrenParts, h]
+  simp [TextOut.append]
+
+theorem childrenParts_spaces (n : Nat) (hd : (digits n).length ≤ maxStrDigits) (tail : Option Str) (rest : List Xml) (r : Str)
+    (h : childrenParts rest = some (some r)) :
+    childrenParts (.node "text:s" [("text:c", natStr n)] none [] tail :: rest) =
+      some (some (List.replicate n ' ' ++ (tail.getD [] ++ r))) := by
+  rw [childrenParts, h]
+  simp only [natStr, beq_self_eq_true, if_true, List.find?_cons_of_pos, Option.map_some, Option.getD_some,
+    natRepr_isAscii, Bool.not_true, Bool.false_eq_true, if_false, pyInt_natRepr n hd, Int.toNat_natCast]
+  simp [TextOut.append]
+
+theorem childrenParts_span (text : Str) (rest : List Xml) (r : Str) (h : childrenParts rest = some (some r)) :
+    childrenParts (.node "text:span" [] (some text) [] none :: rest) = some (some (text ++ r)) := by
+  rw [childrenParts, h, textParts_node, childrenParts_nil]
+  simp [TextOut.append]
+
+theorem takeWhile_blank (l : Str) : l.takeWhile (· == ' ') = List.replicate (l.takeWhile (· == ' ')).length ' ' ∧
+    l = List.replicate (l.takeWhile (· == ' ')).length ' ' ++ l.drop (l.takeWhile (· == ' ')).length ∧
+    (l.takeWhile (· == ' ')).length ≤ l.length := by
+  induction l with
+  | nil => simp
+  | cons c r ih =>
+    by_cases hc : c = ' '
+    · subst hc
+      obtain ⟨h1, h2, h3⟩ := ih
+      simp only [List.takeWhile_cons, beq_self_eq_true, if_true, List.length_cons, List.replicate_succ, List.drop_succ_cons,
+        List.cons_append, List.cons.injEq, true_and]
+      exact ⟨h1, h2, by omega⟩
+    · have : (c == ' ') = false := by simpa using hc
+      simp [List.takeWhile_cons, this]
+
+/-- the white-space mark-up of one paragraph puts the text back together -/
+theorem encodeInline_go (fuel : Nat) : ∀ (text acc : Str), text.length < fuel → text.length < 10 ^ maxStrDigits →
+    ∃ r, childrenParts (encodeInline.go fuel text acc).2 = some (some r) ∧
+      ((encodeInline.go fuel text acc).1.getD []) ++ r = acc.reverse ++ text := by
+  induction fuel with
+  | zero => intro text acc h; omega
+  | succ fuel ih =>
+    intro text acc hlen hsmall
+    cases text with
+    | nil =>
+      refine ⟨[], ?_, ?_⟩
+      · simp [encodeInline.go, childrenParts_nil]
+      · simp [encodeInline.go, optText_getD]
+    | cons c rest =>
+      have hrl : rest.length < fuel := by simp only [List.length_cons] at hlen; omega
+      have hrs : rest.length < 10 ^ maxStrDigits := by simp only [List.length_cons] at hsmall; omega
+      by_cases ht : c = '\t'
+      · subst ht
+        obtain ⟨r, hr1, hr2⟩ := ih rest [] hrl hrs
+        refine ⟨'\t' :: (((encodeInline.go fuel rest []).1.getD []) ++ r), ?_, ?_⟩
+        · simp only [encodeInline.go]; exact childrenParts_tab _ _ _ hr1
+        · simp only [encodeInline.go, optText_getD, hr2]; simp
+      · by_cases hn : c = '\n'
+        · subst hn
+          obtain ⟨r, hr1, hr2⟩ := ih rest [] hrl hrs
+          refine ⟨'\n' :: (((encodeInline.go fuel rest []).1.getD []) ++ r), ?_, ?_⟩
+          · simp only [encodeInline.go]; exact childrenParts_break _ _ _ hr1
+          · simp only [encodeInline.go, optText_getD, hr2]; simp
+        · by_cases hb : c = ' ' ∧ ∃ rest', rest = ' ' :: rest'
+          · obtain ⟨rfl, rest', rfl⟩ := hb
+            have hdl : (rest'.drop (rest'.takeWhile (· == ' ')).length).length < fuel := by
+              simp only [List.length_cons, List.length_drop] at hrl ⊢; omega
+            have hds : (rest'.drop (rest'.takeWhile (· == ' ')).length).length < 10 ^ maxStrDigits := by
+              simp only [List.length_cons, List.length_drop] at hrs ⊢; omega
+            obtain ⟨r, hr1, hr2⟩ := ih (rest'.drop (rest'.takeWhile (· == ' ')).length) [] hdl hds
+            obtain ⟨hall, hsplit, htw⟩ := takeWhile_blank rest'
+            have hdig : (digits (1 + (rest'.takeWhile (· == ' ')).length)).length ≤ maxStrDigits := by
+              apply digits_within_limit
+              simp only [List.length_cons] at hsmall
+              omega
+            refine ⟨List.replicate (1 + (rest'.takeWhile (· == ' ')).length) ' ' ++
+              (((encodeInline.go fuel (rest'.drop (rest'.takeWhile (· == ' ')).length) []).1.getD []) ++ r), ?_, ?_⟩
+            · simp only [encodeInline.go]; exact childrenParts_spaces _ hdig _ _ _ hr1
+            · simp only [encodeInline.go, Option.getD_some, hr2, List.reverse_cons, List.reverse_nil, List.nil_append]
+              conv => rhs; rw [hsplit]
+              rw [show 1 + (rest'.takeWhile (· == ' ')).length = (rest'.takeWhile (· == ' ')).length + 1 by omega, List.replicate_succ]
+              simp [List.append_assoc]
+          · -- an ordinary character (a single blank included)
+            obtain ⟨r, hr1, hr2⟩ := ih rest (c :: acc) hrl hrs
+            have hgo : encodeInline.go (fuel + 1) (c :: rest) acc = encodeInline.go fuel rest (c :: acc) := by
+              rw [encodeInline.go.eq_def]
+              split
+              · omega
+              · rename_i heq; cases heq
+              · rename_i heq; simp only [List.cons.injEq] at heq; exact absurd heq.1 ht
+              · rename_i heq; simp only [List.cons.injEq] at heq; exact absurd heq.1 hn
+              · rename_i heq
+                simp only [List.cons.injEq] at heq
+                exact absurd ⟨heq.1, _, heq.2⟩ hb
+              · rename_i hfuel heq
+                simp only [List.cons.injEq] at heq
+                obtain ⟨rfl, rfl⟩ := heq
+                have : fuel = _ := Nat.succ.inj hfuel
+                subst this
+                rfl
+            refine ⟨r, by rw [hgo]; exact hr1, ?_⟩
+            rw [hgo, hr2]; simp
+
+/-- every way of marking up a paragraph gives the paragraph back -/
+theorem textParts_encodeInline (f : OdsFeatures) (p : Str) (hp : p.length < 10 ^ maxStrDigits) :
+    textParts (.node "text:p" [] (encodeInline f p).1 (encodeInline f p).2 none) = some (some p) := by
+  rw [textParts_node]
+  unfold encodeInline
+  by_cases hs : f.spans = true
+  · simp only [hs, if_true, Option.getD_none]
+    rw [childrenParts_span p [] [] childrenParts_nil]
+    simp [TextOut.append]
+  · simp only [hs, Bool.false_eq_true, if_false]
+    by_cases hw : f.whitespace = true
+    · simp only [hw, if_true]
+      obtain ⟨r, hr1, hr2⟩ := encodeInline_go (p.length + 1) p [] (by omega) hp
+      rw [hr1]
+      simp only [TextOut.append, hr2, List.reverse_nil, List.nil_append]
+    · simp only [hw, Bool.false_eq_true, if_false, childrenParts_nil, optText_getD]
+      simp [TextOut.append]
+
+/-- lines joined by line feeds -/
+def joinLines : List Str → Str
+  | [] => []
+  | [l] => l
+  | l :: rest => l ++ '\n' :: joinLines rest
+
+theorem splitLines_go_ne_nil (s : Str) : ∀ acc, splitLines.go s acc ≠ [] := by
+  induction s with
+  | nil => intro acc; simp [splitLines.go]
+  | cons c r ih =>
+    intro acc
+    rw [splitLines.go.eq_def]
+    split
+    · simp
+    · simp
+    · rename_i heq; simp only [List.cons.injEq] at heq; obtain ⟨rfl, rfl⟩ := heq; exact ih _
+
+theorem splitLines_go_join (s acc : Str) : joinLines (splitLines.go s acc) = acc.reverse ++ s := by
+  induction s generalizing acc with
+  | nil => simp [splitLines.go, joinLines]
+  | cons c r ih =>
+    by_cases hc : c = '\n'
+    · subst hc
+      have hne : splitLines.go r [] ≠ [] := splitLines_go_ne_nil r []
+      simp only [splitLines.go]
+      cases hg : splitLines.go r [] with
+      | nil => exact absurd hg hne
+      | cons l ls =>
+        have := ih []
+        rw [hg] at this
+        simp only [joinLines, this]
+        simp
+    · have hgo : splitLines.go (c :: r) acc = splitLines.go r (c :: acc) := by
+        rw [splitLines.go.eq_def]
+        split
+        · rename_i heq; cases heq
+        · rename_i heq; simp only [List.cons.injEq] at heq; exact absurd heq.1 hc
+        · rename_i heq; simp only [List.cons.injEq] at heq; obtain ⟨rfl, rfl⟩ := heq; rfl
+      rw [hgo, ih]; simp
+
+theorem joinLines_splitLines (s : Str) : joinLines (splitLines s) = s := by
+  unfold splitLines; simpa using splitLines_go_join s []
+
+theorem length_le_of_mem_splitLines_go (s acc : Str) : ∀ l ∈ splitLines.go s acc, l.length ≤ acc.length + s.length := by
+  induction s generalizing acc with
+  | nil => intro l hl; simp [splitLines.go] at hl; subst hl; simp
+  | cons c r ih =>
+    intro l hl
+    rw [splitLines.go.eq_def] at hl
+    split at hl
+    · rename_i heq; cases heq
+    · rename_i heq
+      simp only [List.cons.injEq] at heq
+      obtain ⟨_, rfl⟩ := heq
+      rcases List.mem_cons.mp hl with rfl | h
+      · simp
+      · have := ih [] l h; simp at this ⊢; omega
+    · rename_i heq
+      simp only [List.cons.injEq] at heq
+      obtain ⟨rfl, rfl⟩ := heq
+      have := ih _ l hl
+      simp at this ⊢; omega
+
+theorem joinParas_lines (f : OdsFeatures) : ∀ (lines : List Str), (∀ l ∈ lines, l.length < 10 ^ maxStrDigits) →
+    joinParas (lines.map (fun p => .node "text:p" [] (encodeInline f p).1 (encodeInline f p).2 none)) = some (some (joinLines lines)) := by
+  intro lines
+  induction lines with
+  | nil => intro _; rfl
+  | cons l rest ih =>
+    intro h
+    have hl := textParts_encodeInline f l (h l (by simp))
+    cases rest with
+    | nil => simpa [joinParas, joinLines] using hl
+    | cons l2 rest2 =>
+      have ih' := ih (fun x hx => h x (by simp [hx]))
+      simp only [List.map_cons] at ih' ⊢
+      rw [joinParas.eq_3 _ _ (by simp), hl, ih']
+      simp [TextOut.append, joinLines]
+
+/-- **the text of an encoded cell is the text that was encoded**, whatever mark-up features the encoder uses -/
+theorem encodeCell_value (f : OdsFeatures) (t : Str) (n : Nat) (ht : t.length < 10 ^ maxStrDigits) :
+    cellValue (encodeCell f t n) = some (some t) := by
   unfold cellValue encodeCell Xml.childrenTagged Xml.children cellParas
-  by_cases ht : t.isEmpty = true
-  · have : t = [] := by simpa using ht
+  by_cases hte : t.isEmpty = true
+  · have : t = [] := by simpa using hte
     subst this
-    simp
-  · have htf : t.isEmpty = false := by simpa using ht
-    simp [htf, h4, Xml.tag, encodeInline, h2, h3, Xml.text, optText]
-    intro h; subst h; simp at htf
+    simp [joinParas]
+  · have htf : t.isEmpty = false := by simpa using hte
+    simp only [htf, Bool.false_eq_true, if_false]
+    rw [filter_tag_map' _ "text:p" _ (fun a => rfl)]
+    by_cases hp : f.paragraphs = true
+    · simp only [hp, if_true]
+      rw [joinParas_lines f (splitLines t) ?_, joinLines_splitLines]
+      intro l hl
+      have := length_le_of_mem_splitLines_go t [] l hl
+      simp at this; omega
+    · simp only [hp, Bool.false_eq_true, if_false]
+      rw [joinParas_lines f [t] (by intro l hl; simp at hl; subst hl; exact ht)]
+      rfl
 
 /-- decoding a list of encoded cells expands the runs again -/
-theorem odsRow_cells_encoded (f : OdsFeatures) (hf : f.plain) (rs : List (Str × Nat)) (hpos : ∀ p ∈ rs, 1 ≤ p.2)
-    (hsmall : ∀ p ∈ rs, (digits p.2).length ≤ maxStrDigits) :
+theorem odsRow_cells_encoded (f : OdsFeatures) (rs : List (Str × Nat)) (hpos : ∀ p ∈ rs, 1 ≤ p.2)
+    (hsmall : ∀ p ∈ rs, (digits p.2).length ≤ maxStrDigits) (hcells : ∀ p ∈ rs, p.1.length < 10 ^ maxStrDigits) :
     odsRow.cells (rs.map (fun p => encodeCell f p.1 p.2)) = some (some ((expandRuns rs).map some)) := by
   induction rs with
   | nil => simp [odsRow.cells, expandRuns]
@@ -148,15 +378,14 @@ theorem odsRow_cells_encoded (f : OdsFeatures) (hf : f.plain) (rs : List (Str ×
     obtain ⟨t, n⟩ := p
     have hn : 1 ≤ n := hpos (t, n) (by simp)
     have hd : (digits n).length ≤ maxStrDigits := hsmall (t, n) (by simp)
-    have ih' := ih (fun q hq => hpos q (by simp [hq])) (fun q hq => hsmall q (by simp [hq]))
+    have ih' := ih (fun q hq => hpos q (by simp [hq])) (fun q hq => hsmall q (by simp [hq])) (fun q hq => hcells q (by simp [hq]))
     simp only [List.map_cons, odsRow.cells]
     rw [isAscii_repeat f t n]
     simp only [Bool.not_true, Bool.false_eq_true, if_false, encodeCell_repeat f t n hn hd]
     have : ¬ ((n : Int) < 1) := by omega
-    have hv := encodeCell_value f hf t n
-    simp only [this, if_false, ih']
+    have hv := encodeCell_value f t n (hcells (t, n) (by simp))
+    simp only [this, if_false, ih', hv]
     simp only [expandRuns, List.map_append, List.map_replicate]
-    rw [hv]
     simp
 
 end Cutplace
@@ -165,12 +394,31 @@ namespace Cutplace
 open Cutplace.Spec
 
 theorem filter_tag_map {α} (g : α → Xml) (tag : String) (l : List α) (h : ∀ a, (g a).tag = tag) :
-    (l.map g).filter (fun c => c.tag == tag) = l.map g := by
-  induction l with
-  | nil => rfl
-  | cons a as ih => simp [h a, ih]
+    (l.map g).filter (fun c => c.tag == tag) = l.map g := filter_tag_map' g tag l h
 
-theorem odsRow_encodeRow (f : OdsFeatures) (hf : f.plain) (row : List Str) (n : Nat) (hrow : row.length < 10 ^ maxStrDigits) :
+theorem mem_runs_fst {α} [DecidableEq α] (l : List α) : ∀ p ∈ runs l, p.1 ∈ l := by
+  induction l with
+  | nil => intro p hp; simp [runs] at hp
+  | cons x xs ih =>
+    intro p hp
+    unfold runs at hp
+    split at hp
+    · rename_i y n rest hr
+      split at hp
+      · rename_i hxy
+        rcases List.mem_cons.mp hp with rfl | h
+        · have := ih (y, n) (by rw [hr]; simp)
+          simp [this]
+        · have := ih p (by rw [hr]; simp [h])
+          simp [this]
+      · rcases List.mem_cons.mp hp with rfl | h
+        · simp
+        · have := ih p (by rw [hr]; exact h)
+          simp [this]
+    · simp at hp; subst hp; simp
+
+theorem odsRow_encodeRow (f : OdsFeatures) (row : List Str) (n : Nat) (hrow : row.length < 10 ^ maxStrDigits)
+    (hcells : ∀ t ∈ row, t.length < 10 ^ maxStrDigits) :
     odsRow (encodeRow f row n) = some (some (row.map some)) := by
   unfold odsRow encodeRow Xml.childrenTagged Xml.children
   by_cases hc : f.colRuns = true
@@ -178,28 +426,30 @@ theorem odsRow_encodeRow (f : OdsFeatures) (hf : f.plain) (row : List Str) (n : 
     have hmap : (runs row).map (fun x => match x with | (t, n) => encodeCell f t n) = (runs row).map (fun p => encodeCell f p.1 p.2) := by
       apply List.map_congr_left; intro p _; rfl
     rw [hmap, filter_tag_map (fun p : Str × Nat => encodeCell f p.1 p.2) "table:table-cell" _ (fun a => encodeCell_tag f a.1 a.2)]
-    rw [odsRow_cells_encoded f hf (runs row) (runs_pos row)
-      (fun p hp => digits_within_limit p.2 (Nat.lt_of_le_of_lt (runs_le row p hp) hrow)), expandRuns_runs]
+    rw [odsRow_cells_encoded f (runs row) (runs_pos row)
+      (fun p hp => digits_within_limit p.2 (Nat.lt_of_le_of_lt (runs_le row p hp) hrow))
+      (fun p hp => hcells p.1 (mem_runs_fst row p hp)), expandRuns_runs]
   · have hcf : f.colRuns = false := by simpa using hc
     simp only [hcf, Bool.false_eq_true, if_false]
     have hmap : row.map (fun t => encodeCell f t 1) = (row.map (fun t => (t, 1))).map (fun p => encodeCell f p.1 p.2) := by
       simp [List.map_map, Function.comp_def]
     rw [hmap, filter_tag_map (fun p : Str × Nat => encodeCell f p.1 p.2) "table:table-cell" _ (fun a => encodeCell_tag f a.1 a.2)]
-    rw [odsRow_cells_encoded f hf _ (by intro p hp; obtain ⟨t, _, rfl⟩ := List.mem_map.mp hp; simp)
-      (by intro p hp; obtain ⟨t, _, rfl⟩ := List.mem_map.mp hp; show (digits 1).length ≤ maxStrDigits; unfold digits; simp [maxStrDigits])]
+    rw [odsRow_cells_encoded f _ (by intro p hp; obtain ⟨t, _, rfl⟩ := List.mem_map.mp hp; simp)
+      (by intro p hp; obtain ⟨t, _, rfl⟩ := List.mem_map.mp hp; show (digits 1).length ≤ maxStrDigits; unfold digits; simp [maxStrDigits])
+      (by intro p hp; obtain ⟨t, ht, rfl⟩ := List.mem_map.mp hp; exact hcells t ht)]
     congr 2
-    clear hrow hmap
+    clear hrow hmap hcells
     induction row with
     | nil => rfl
     | cons t ts ih => simp [expandRuns, ih]
 
-theorem odsRowsOf_encoded (f : OdsFeatures) (hf : f.plain) (rows : List (List Str))
-    (hsmall : ∀ r ∈ rows, r.length < 10 ^ maxStrDigits) :
+theorem odsRowsOf_encoded (f : OdsFeatures) (rows : List (List Str))
+    (hsmall : ∀ r ∈ rows, r.length < 10 ^ maxStrDigits) (hcells : ∀ r ∈ rows, ∀ t ∈ r, t.length < 10 ^ maxStrDigits) :
     odsRowsOf (rows.map (fun r => encodeRow f r 1)) = some (some (rows.map (·.map some))) := by
   induction rows with
   | nil => rfl
   | cons r rs ih =>
-    have ih' := ih (fun x hx => hsmall x (by simp [hx]))
-    simp [odsRowsOf, odsRow_encodeRow f hf r 1 (hsmall r (by simp)), ih']
+    have ih' := ih (fun x hx => hsmall x (by simp [hx])) (fun x hx => hcells x (by simp [hx]))
+    simp [odsRowsOf, odsRow_encodeRow f r 1 (hsmall r (by simp)) (hcells r (by simp)), ih']
 
 end Cutplace
